@@ -357,7 +357,24 @@ pub fn worker_main(sc: &dyn Scenario, property: &str, tier: Tier, seed: u64) {
             st.n += 1;
             st.io_events += ctx.io_events;
             st.sub_evals += ctx.sub_evals.max(1);
-            st.digest = mix(st.digest, mix(idx, ctx.digest));
+            // order- and partition-independent batch digest: XOR of per-run values
+            let vcode = match &v {
+                Verdict::Pass => 1u64,
+                Verdict::Skip(r) => mix(2, fnv(r.as_bytes())),
+                Verdict::Violation { class, .. } => mix(3, fnv(class.as_bytes())),
+                Verdict::Known { id, .. } => mix(4, fnv(id.as_bytes())),
+                Verdict::Harness(_) => 5,
+            };
+            let mut sub = 0u64;
+            for s in &ctx.sub_sigs {
+                sub ^= *s;
+            }
+            let runval = mix(idx, mix(mix(ctx.digest, vcode), mix(ctx.sub_evals, sub ^ ctx.sig.unwrap_or(0))));
+            st.digest ^= runval;
+            if std::env::var("VERIF_DEBUG_RUNS").is_ok() {
+                let line = format!("RUN {idx} {runval:016x} digest={:016x} v={vcode:x} sub={} sig={:?}\n", ctx.digest, ctx.sub_evals, ctx.sig);
+                let _ = std::io::stderr().write_all(line.as_bytes());
+            }
             for (k, n) in ctx.probes {
                 *st.probes.entry(k).or_insert(0) += n;
             }
@@ -451,7 +468,7 @@ fn spawn_worker(wid: usize, scenario: &str, property: &str, tier: Tier, seed: u6
         .args(["worker", "--scenario", scenario, "--property", property, "--tier", tier.name(), "--seed", &seed.to_string()])
         .stdin(Stdio::piped())
         .stdout(Stdio::piped())
-        .stderr(Stdio::null())
+        .stderr(if std::env::var("VERIF_DEBUG_RUNS").is_ok() { Stdio::inherit() } else { Stdio::null() })
         .spawn()
         .expect("spawn worker");
     let stdout = child.stdout.take().expect("stdout");
